@@ -349,4 +349,6 @@ func record(epath string, n int) {
 	sum.Nontrivial = len(seen)
 	sum.Note("accepted", accepted)
 	sum.Note("rejected", rejected)
+	sum.Note("alloc_peak_permille_of_bound", allocPeak)
+	sum.Note("alloc_peak_at", allocPeakAt)
 }
